@@ -14,9 +14,10 @@ def nextAct (s : St) : Option Act :=
   match s.pc with
   | .calc => some .calc
   | .waitFb =>
-    match s.pending with
-    | p :: _ => some (.consume p)
-    | [] => if s.cfg.v1 ∧ s.stopped then some .stopSeen else none
+    if s.cfg.v1 ∧ s.stopped then some .stopSeen
+    else match s.pending with
+      | p :: _ => some (.consume p)
+      | [] => none
   | .prio 1 [] => some .recalc
   | .prio _ [] => none
   | .prio _ (p :: _) =>
@@ -44,6 +45,19 @@ def drive (div : DivFn) : Nat → St → St
       match step div s a with
       | none => s
       | some s' => drive div fuel s'
+
+/-- `waitCalcTactic`: like `drive` but stops as soon as the control state leaves calc/waitFb -/
+def driveWct (div : DivFn) : Nat → St → St
+  | 0, s => s
+  | fuel + 1, s =>
+    if s.pc = .calc ∨ s.pc = .waitFb then
+      (match nextAct s with
+       | none => s
+       | some a =>
+         match step div s a with
+         | none => s
+         | some s' => driveWct div fuel s')
+    else s
 
 /-- like `drive` but stops as soon as the control state is no longer inside `prioritize` -/
 def drivePrio (div : DivFn) : Nat → St → St
@@ -186,6 +200,7 @@ def op (ss : Session) (toks : List String) : Option (String × Session) :=
   | ["release", p] => do
     let ss' ← applyAct ss (.release (← parseNat? p)); some (reply "ok" ss')
   | ["stop"] => do let ss' ← applyAct ss .stop; some (reply "ok" ss')
+  | ["stop", "ctx"] => do let ss' ← applyAct ss .stop; some (reply "ok" ss')
   | ["graceful"] => do let ss' ← applyAct ss .graceful; some (reply "ok" ss')
   | ["top", "none"] => do let ss' ← applyAct ss (.top .none); some (reply "ok" ss')
   | ["top", "fb"] =>
@@ -220,6 +235,16 @@ def op (ss : Session) (toks : List String) : Option (String × Session) :=
       | .prio _ (_ :: _) => "proceed" | .prio _ [] => (if ss'.st.prios.isEmpty then "proceed" else "stop")
       | .drain e => errStatus e | pc => showPc pc
     some (reply status ss')
+  | ["wct"] =>
+    if s.pc = .calc then
+      let st' := driveWct ss.div fuel s
+      let status := match st'.pc with
+        | .prio _ _ => "ok"
+        | .drain e => errStatus e
+        | .waitFb => "blocked"
+        | pc => showPc pc
+      some (reply status { ss with st := st' })
+    else none
   | ["base"] =>
     if s.pc = .calc then
       let st' := drive ss.div fuel s
